@@ -26,7 +26,7 @@ EXPLANATION = (
     "operate(str); the '=' arm stores for existing names and removes only temporaries.")
 ASSUMPTIONS = ["the operations of (H) depend on the table only through the name -> column map (values are opaque tokens; one observation holds equal values in two columns to expose by-value deletion)",
                "operators and the expression evaluator are covered by the effect summaries (F) and the clean-up rules (T, E), not by (H)"]
-TECHNIQUE = "abstract interpretation of the repository's Track / operator / evaluator source by the checker's AST interpreter: every feature-API operation from each of the 16 reachable name->column maps (opaque values: an inductive-invariant argument), every operator singleton and a family of expressions on numeric tracks in three column orders (bounded case domains); interprocedural write-effect summaries over all operator classes (F1)"
+TECHNIQUE = "abstract interpretation of the repository's Track / operator / evaluator source by the checker's AST interpreter: every feature-API operation (function-computed features included) from each of the 16 reachable name->column maps (opaque values: an inductive-invariant argument), every operator singleton and a family of expressions on numeric tracks in three column orders (bounded case domains); interprocedural write-effect summaries over all operator classes (F1)"
 
 
 def vr(v):
